@@ -8,6 +8,7 @@ package props
 
 import (
 	"fmt"
+	banktypes "github.com/cosmos/cosmos-sdk/x/bank/types"
 	"math"
 	"math/big"
 	"testing"
@@ -32,6 +33,7 @@ type c13Params struct {
 	Staker, Dev, Provider        int64
 	Denom                        string
 	Stipend                      int
+	Transfers                    int // bank setting for user transfers: 0 enabled, 1 disabled by default, 2 disabled for the mint denomination
 	Blocks                       int
 	StartHeight                  int64
 	// a parameter change by governance in the middle of the run (ChangeAt < 0: none): new decrease, emission base and ratios
@@ -60,6 +62,7 @@ func genC13(rt *rapid.T) c13Params {
 	p.Staker, p.Dev, p.Provider = a, b, total-a-b
 	p.Denom = rapid.SampledFrom([]string{"ujkl", "ujkl", "ujkl", "", "uother"}).Draw(rt, "denom")
 	// -1: the stipend goes to the developer-grants pool itself (one account, two shares); -2: a 32-byte address
+	p.Transfers = rapid.SampledFrom([]int{0, 0, 0, 1, 2}).Draw(rt, "userTransfers")
 	p.Stipend = rapid.SampledFrom([]int{chain.AccStipend, chain.AccStipend, 0, 1, -1, -1, -2}).Draw(rt, "stipend")
 	p.Blocks = rapid.IntRange(1, 60).Draw(rt, "blocks")
 	if rapid.IntRange(0, 39).Draw(rt, "longRun") == 0 {
@@ -88,6 +91,18 @@ func c13Run(c *chain.Chain, p c13Params, rec *ev.Rec) (sig, msg string, reachedL
 		return "C13/harness", "generated params rejected: " + err.Error(), false
 	}
 	c.App.MintKeeper.SetParams(f.Ctx, mp)
+	// a chain launched with user transfers switched off (of everything, or of the mint denomination): that is a setting for
+	// transactions between users and has no bearing on what the protocol itself distributes
+	switch p.Transfers {
+	case 1:
+		c.App.BankKeeper.SetParams(f.Ctx, banktypes.Params{DefaultSendEnabled: false})
+	case 2:
+		d := p.Denom
+		if d == "" {
+			d = "ujkl"
+		}
+		c.App.BankKeeper.SetParams(f.Ctx, banktypes.Params{DefaultSendEnabled: true, SendEnabled: []*banktypes.SendEnabled{{Denom: d, Enabled: false}}})
+	}
 	denom := p.Denom
 	if denom == "" {
 		denom = "ujkl"
